@@ -864,6 +864,50 @@ func c13Copy(c *Ctx, ix *PkgIndex, xc xformCopy) []string {
 				}
 				return true
 			})
+			if !good {
+				// nested form: the resource's group is looked up by Equivalent(), and the scope's entry is looked up by the
+				// instrumentation scope in a map reached through that group (g, ok := groups[rKey]; sl, ok := g.scopes[scope])
+				groupVars := map[types.Object]bool{}
+				lookups := func(visit func(lhs ast.Expr, ie *ast.IndexExpr)) {
+					inspectNoLit(fn.Body(), func(n ast.Node) bool {
+						as, ok := n.(*ast.AssignStmt)
+						if !ok || len(as.Rhs) != 1 || len(as.Lhs) < 1 {
+							return true
+						}
+						ie, isIx := unparen(as.Rhs[0]).(*ast.IndexExpr)
+						if !isIx {
+							return true
+						}
+						if _, isMap := info.TypeOf(ie.X).Underlying().(*types.Map); isMap {
+							visit(as.Lhs[0], ie)
+						}
+						return true
+					})
+				}
+				lookups(func(lhs ast.Expr, ie *ast.IndexExpr) {
+					if strings.Contains(expandExpr(info, fn, ie.Index, 0), "Equivalent()") {
+						if o := objOf(info, lhs); o != nil {
+							groupVars[o] = true
+						}
+					}
+				})
+				lookups(func(lhs ast.Expr, ie *ast.IndexExpr) {
+					if !strings.Contains(expandExpr(info, fn, ie.Index, 0), "InstrumentationScope()") {
+						return
+					}
+					root := ast.Expr(ie.X)
+					for {
+						if se, ok := unparen(root).(*ast.SelectorExpr); ok {
+							root = se.X
+							continue
+						}
+						break
+					}
+					if unparen(root) != unparen(ie.X) && groupVars[objOf(info, root)] {
+						good = true
+					}
+				})
+			}
 			c.Check(good, "R4", sp+"|"+fname+"|groups keyed by (resource.Equivalent(), instrumentation scope)", at(ix.M, fn.Pos()), "one ScopeX per resource × scope", "items of different resources or scopes are merged into one group (or split)")
 		}
 	}
